@@ -62,6 +62,16 @@ pub fn verify_pow(digest: [u8; 32], n_bits: u8, nonce: u64) -> Result<(), Error>
     hash_data.extend_from_slice(&nonce.to_be_bytes());
     hasher.update(&hash_data);
     let final_hash = hasher.finalize();
+    #[cfg(swiftness_verif)]
+    swiftness_transcript::verif::ev("pow")
+        .bytes("digest", &digest)
+        .u("n_bits", n_bits as u64)
+        .s("nonce", &alloc::format!("{:#x}", nonce))
+        .bytes("pre1", &init_data)
+        .bytes("h1", &init_hash)
+        .bytes("pre2", &hash_data)
+        .bytes("h2", final_hash.as_slice())
+        .emit();
 
     assure!(
         Felt::from_bytes_be_slice(&final_hash.as_slice()[0..16]) < Felt::TWO.pow(128 - n_bits),
